@@ -69,7 +69,7 @@ fn conc_share(prop: &str) -> u64 {
     match prop {
         "C14" => 100,
         "C09" | "C10" | "C11" => 25,
-        "C04" | "C15" | "C18" => 15,
+        "C04" | "C15" | "C18" | "C17" => 15,
         _ => 0,
     }
 }
@@ -98,6 +98,7 @@ pub fn cmd_worker(opts: &BTreeMap<String, String>) -> i32 {
     let runs: u64 = opts.get("runs").and_then(|s| s.parse().ok()).unwrap_or(1);
     let deadline: u64 = opts.get("deadline").and_then(|s| s.parse().ok()).unwrap_or(3600);
     let want_log = opts.contains_key("log");
+    crate::runner::watchdog_start();
     if opts.get("tier").map(|t| t == "thorough").unwrap_or(false) {
         crate::gen::THOROUGH.store(true, std::sync::atomic::Ordering::Relaxed);
     }
@@ -691,6 +692,7 @@ pub fn cmd_replay(pos: &[String], opts: &BTreeMap<String, String>) -> i32 {
     };
     let (known_open, _) = load_known(&format!("{}/KNOWN_FINDINGS.txt", verif_root()));
     let verbose = opts.contains_key("verbose");
+    crate::runner::watchdog_start();
     let r = run_trace(&trace, &known_open, verbose);
     if opts.contains_key("log") {
         for l in &r.log {
